@@ -7,20 +7,25 @@
                                 every TSM file AND its tombstone file) ; tar of the entries
                                 whose ModTime is AFTER since (pkg/tar SinceFilterTarFile:
                                 strict [>])                                [backup_members]
-      Restore(r, base)        = overlay(asNew=false): readFileFromBackup skips every
-                                archive member whose name does not end in ".tsm" — tombstone
-                                members are dropped — and installs the others under their
-                                own names; FileStore.Replace(nil, files); index rebuilt
-                                from the keys of the installed files       [restore_state]
-      Export(w, base, lo, hi) = CreateSnapshot ; per TSM file timeStampFilterTarFile:
-                                a file WITH a tombstone: StreamFile(tsm info, tombstone base
-                                name) -> open fails (error 1);  three-way overlap test on
-                                the file's [min,max] -> filterFileToBackup keeps every BLOCK
-                                that overlaps [lo,hi] (WriteIndex of an empty result fails:
-                                error 2);  file inside the range -> streamed whole (both
-                                branches fire when min = lo and max = hi)  [export_file]
+      Restore(r, base)        = overlay(asNew=false): readFileFromBackup installs every
+                                .tsm member under its own name and (since the repair of
+                                finding restore-drops-tombstones) every .tombstone member
+                                next to it, so FileStore.Replace opens the restored file
+                                with its deletes applied; index rebuilt from the keys of
+                                the installed files                        [restore_state]
+      Export(w, base, lo, hi) = CreateSnapshot ; per TSM file timeStampFilterTarFile (the
+                                tombstone file is streamed as its own entry):  three-way
+                                overlap test on the file's physical [min,max] ->
+                                filterFileToBackup keeps every BLOCK the reader iterates
+                                (keys entirely deleted by the tombstones are absent from
+                                the reader's index: the observed "view") that overlaps
+                                [lo,hi], and streams nothing when no block is kept;  file
+                                inside the range -> streamed whole (both branches fire
+                                when min = lo and max = hi)                [export_file_gen]
       Import(r, base)         = overlay(asNew=true): every .tsm member becomes a new file
-                                with the next generation, in archive order  [import_state]
+                                with the next generation, in archive order; tombstone
+                                members are NOT installed (open finding
+                                import-drops-tombstones)                   [import_state]
 
     File modification times are logical ranks supplied with the case (the driver sets
     them with os.Chtimes); the physical block layout of each TSM file (key, points per
@@ -43,10 +48,16 @@ Definition snapshot_now (s : state) : state := fst (step (fst (step s SnapBegin)
 Definition strip (f : file) : file := {| fpts := fpts f; ftomb := [] |}.
 Definition engine_of (fs : list file) : state :=
   {| hot := []; snap := []; snapshotting := false; files := fs |}.
-(** files paired with the mtime rank of their .tsm *)
-Definition backup_sel (since : Z) (mfs : list (Z * file)) : list file :=
-  map snd (filter (fun p => Z.gtb (fst p) since) mfs).
-Definition restore_state (archive : list file) : state := engine_of (map strip archive).
+(** The archive of Backup as model files: (file, its tombstone file is a member too).
+    [mfs]: the files with the mtime rank of their .tsm and of their tombstone file. *)
+Definition backup_sel (since : Z) (mfs : list (Z * option Z * file)) : list (file * bool) :=
+  flat_map (fun p =>
+              if Z.gtb (fst (fst p)) since
+              then [(snd p, match snd (fst p) with Some m => Z.gtb m since | None => false end)]
+              else []) mfs.
+Definition restored_file (p : file * bool) : file := if snd p then fst p else strip (fst p).
+Definition restore_state (archive : list (file * bool)) : state :=
+  engine_of (map restored_file archive).
 
 (** ** Block layout. *)
 Definition block := (key * list (Z * Z))%type.
@@ -76,36 +87,32 @@ Definition block_keep (lo hi : Z) (b : block) : bool :=
    || (Z.geb (bmax b) lo && Z.leb (bmax b) hi)
    || (Z.leb (bmin b) lo && Z.geb (bmax b) hi))%bool.
 
-(** Members written for one tombstone-free TSM file; [None] = WriteIndex fails (ErrNoValues). *)
-Definition export_file (lo hi : Z) (f : bfile) : option (list bfile) :=
-  let whole := if inside (fmin f) (fmax f) lo hi then [f] else [] in
-  if overlaps3 (fmin f) (fmax f) lo hi then
-    match filter (block_keep lo hi) f with
-    | [] => None
-    | g => Some (g :: whole)
+(** Members written for one TSM file: [phys] its physical blocks (whole-file branch, file
+    range), [view] the blocks its reader iterates (= [phys] without the keys that the
+    tombstones delete entirely). *)
+Definition export_file_gen (lo hi : Z) (phys view : bfile) : list bfile :=
+  let whole := if inside (fmin phys) (fmax phys) lo hi then [phys] else [] in
+  if overlaps3 (fmin phys) (fmax phys) lo hi then
+    match filter (block_keep lo hi) view with
+    | [] => whole
+    | g => g :: whole
     end
-  else Some whole.
+  else whole.
+(** a tombstone-free file *)
+Definition export_file (lo hi : Z) (f : bfile) : list bfile := export_file_gen lo hi f f.
 
-(** The whole shard, files in name order; a file is (has a tombstone file, layout).
-    Result: error code (0 none, 1 open of the tombstone base name fails, 2 ErrNoValues)
-    and the members (source file index, blocks) written so far. *)
-Fixpoint export (lo hi : Z) (i : nat) (fs : list (bool * bfile)) : N * list (nat * bfile) :=
+(** The whole shard, files in name order; a file is (phys, view).  Result: the .tsm members
+    (source file index, blocks). *)
+Fixpoint export (lo hi : Z) (i : nat) (fs : list (bfile * bfile)) : list (nat * bfile) :=
   match fs with
-  | [] => (0%N, [])
-  | (true, _) :: _ => (1%N, [])
-  | (false, f) :: r =>
-      match export_file lo hi f with
-      | None => (2%N, [])
-      | Some ms =>
-          let (c, rest) := export lo hi (S i) r in
-          (c, map (fun m => (i, m)) ms ++ rest)
-      end
+  | [] => []
+  | (phys, view) :: r => map (fun m => (i, m)) (export_file_gen lo hi phys view) ++ export lo hi (S i) r
   end.
 
 Definition import_state (members : list bfile) : state := engine_of (map file_of_bfile members).
 
 (** ** Correspondence case. *)
-Record ofile := { o_mt : Z; o_tomb : option Z; o_blocks : bfile }.
+Record ofile := { o_mt : Z; o_tomb : option Z; o_blocks : bfile; o_view : bfile }.
 Record member := { m_file : option nat; m_kind : N; m_blocks : bfile }.
 Inductive action := ABackup (since : Z) | AExport (lo hi : Z).
 
@@ -138,15 +145,26 @@ Fixpoint nodupN (l : list N) : list N :=
 Definition series_count (fs : list file) : N :=
   N.of_nat (length (nodupN (map (fun kt => series_of (fst kt)) (files_cands fs)))).
 
+Definition pts_eqb := list_eqb (pair_eqb Z.eqb Z.eqb).
+Definition block_eqb (a b : block) : bool := (N.eqb (fst a) (fst b) && pts_eqb (snd a) (snd b))%bool.
+Definition bfile_eqb := list_eqb block_eqb.
+Definition block_in (b : block) (f : bfile) : bool := existsb (block_eqb b) f.
+
 (** The observed layout of a model file: same physical points; a tombstone file exists if
-    a tombstone of the model hides a point, and only if the model has a tombstone. *)
+    a tombstone of the model hides a point, and only if the model has a tombstone; the
+    reader's view is the physical layout for a tombstone-free file, otherwise a sub-list of
+    it that still holds every block with a live point. *)
 Definition layout_ok (f : file) (o : ofile) : bool :=
   let lg := bfile_log (o_blocks o) in
   let cands := file_cands f ++ map (fun e => (fst (fst e), snd (fst e))) lg in
   forallb (fun kt => option_eqb Z.eqb (log_get (fpts f) (fst kt) (snd kt)) (log_get lg (fst kt) (snd kt))) cands
   && match o_tomb o with
      | None => forallb (fun kt => negb (tombed (ftomb f) (fst kt) (snd kt))) cands
+               && bfile_eqb (o_view o) (o_blocks o)
      | Some _ => match ftomb f with [] => false | _ :: _ => true end
+                 && forallb (fun b => block_in b (o_blocks o)) (o_view o)
+                 && forallb (fun b => if existsb (fun p => negb (tombed (ftomb f) (fst b) (fst p))) (snd b)
+                                      then block_in b (o_view o) else true) (o_blocks o)
      end.
 
 Fixpoint forallb2 {A B} (p : A -> B -> bool) (a : list A) (b : list B) : bool :=
@@ -172,14 +190,6 @@ Definition member_key (m : member) : option (nat * N) :=
   match m_file m with Some i => Some (i, m_kind m) | None => None end.
 Definition nk_eqb (a b : nat * N) : bool := (Nat.eqb (fst a) (fst b) && N.eqb (snd a) (snd b))%bool.
 
-(** The archived .tsm files as model files. *)
-Definition pick_files (ms : list (nat * N)) (fs : list file) : list file :=
-  flat_map (fun m => if N.eqb (snd m) 0 then match nth_error fs (fst m) with Some f => [f] | None => [] end else []) ms.
-
-Definition pts_eqb := list_eqb (pair_eqb Z.eqb Z.eqb).
-Definition block_eqb (a b : block) : bool := (N.eqb (fst a) (fst b) && pts_eqb (snd a) (snd b))%bool.
-Definition bfile_eqb := list_eqb block_eqb.
-
 Definition in_range_pts (lo hi : Z) (r : list (Z * Z)) : list (Z * Z) :=
   filter (fun p => in_range lo hi (fst p)) r.
 
@@ -187,6 +197,13 @@ Definition in_range_pts (lo hi : Z) (r : list (Z * Z)) : list (Z * Z) :=
 Definition series_with_data (reads : list (list (Z * Z))) : N :=
   let ne (i : nat) := match nth i reads [] with [] => false | _ :: _ => true end in
   ((if (ne 0%nat || ne 1%nat)%bool then 1 else 0) + (if (ne 2%nat || ne 3%nat)%bool then 1 else 0))%N.
+
+(** series with a live (not tombstoned) physical point in some file *)
+Definition live_file (f : file) : file :=
+  {| fpts := filter (fun e => negb (tombed (ftomb f) (fst (fst e)) (snd (fst e)))) (fpts f); ftomb := [] |}.
+Definition series_count_live (fs : list file) : N := series_count (map live_file fs).
+
+Definition has_tomb (o : ofile) : bool := match o_tomb o with Some _ => true | None => false end.
 
 Definition check (c : case) : verdict :=
   let (s0, flags_ok) := run38 (c_hist c) in
@@ -197,13 +214,21 @@ Definition check (c : case) : verdict :=
   | ABackup since =>
       let ms := backup_members since (c_files c) in
       let obs := map member_key (c_members c) in
-      let archive := pick_files ms (files s) in
+      let mfs := map (fun fo => (o_mt (snd fo), o_tomb (snd fo), fst fo)) (combine (files s) (c_files c)) in
+      let archive := backup_sel since mfs in
       let dst := restore_state archive in
+      let tombs_in := existsb snd archive in
       let same :=
         (flags_ok && lay && srcok && N.eqb (c_err c) 0 && N.eqb (c_rerr c) 0
          && list_eqb (option_eqb nk_eqb) obs (map Some ms)
          && zzs_eqb (c_readB c) (read_all dst)
-         && match c_seriesB c with Some n => N.eqb n (series_count (files dst)) | None => true end)%bool in
+         && match c_seriesB c with
+            | Some n =>
+                (* a key whose points are all deleted stays in the restored reader's index
+                   unless its tombstones form one contiguous cover: an interval then *)
+                if tombs_in then N.leb (series_count_live (files dst)) n && N.leb n (series_count (files dst))
+                else N.eqb n (series_count (files dst))
+            | None => true end)%bool in
       (* oracle: every file changed after [since] is in the archive; a full backup
          restores the same readable points and the same series *)
       let has x := existsb (fun o => option_eqb nk_eqb o (Some x)) obs in
@@ -212,28 +237,33 @@ Definition check (c : case) : verdict :=
                             && match o_tomb (snd io) with
                                | Some m => if Z.gtb m since then has (fst io, 1%N) else true
                                | None => true end)%bool) (indexed 0 (c_files c)) in
-      let full := forallb (fun o => Z.gtb (o_mt o) since) (c_files c) in
+      let full := forallb (fun o => Z.gtb (o_mt o) since
+                                    && match o_tomb o with Some m => Z.gtb m since | None => true end)%bool
+                          (c_files c) in
       let ok :=
         (N.eqb (c_err c) 0 && N.eqb (c_rerr c) 0 && changed_in
          && (if full then zzs_eqb (c_readB c) (c_readA c)
                           && match c_seriesB c with
-                             | Some n => N.eqb n (series_with_data (c_readA c)) | None => true end
+                             | Some n => if existsb has_tomb (c_files c)
+                                         then N.leb (series_with_data (c_readA c)) n
+                                         else N.eqb n (series_with_data (c_readA c))
+                             | None => true end
              else true))%bool in
       judge same ok
   | AExport lo hi =>
-      let (code, ms) :=
-        export lo hi 0 (map (fun o => (match o_tomb o with Some _ => true | None => false end, o_blocks o)) (c_files c)) in
+      let ms := export lo hi 0 (map (fun o => (o_blocks o, o_view o)) (c_files c)) in
       let dst := import_state (map snd ms) in
+      let tsm_members := filter (fun m => N.eqb (m_kind m) 0) (c_members c) in
+      let tomb_members := map m_file (filter (fun m => N.eqb (m_kind m) 1) (c_members c)) in
+      let tomb_expected := flat_map (fun io => if has_tomb (snd io) then [Some (fst io)] else []) (indexed 0 (c_files c)) in
       let same :=
-        (flags_ok && lay && srcok && N.eqb (c_err c) code
-         && (if N.eqb code 0 then
-               N.eqb (c_rerr c) 0
-               && forallb2 (fun (m : member) (x : nat * bfile) =>
-                              option_eqb Nat.eqb (m_file m) (Some (fst x)) && N.eqb (m_kind m) 0
-                              && bfile_eqb (m_blocks m) (snd x))%bool (c_members c) ms
-               && zzs_eqb (c_readB c) (read_all dst)
-               && match c_seriesB c with Some n => N.eqb n (series_count (files dst)) | None => true end
-             else true))%bool in
+        (flags_ok && lay && srcok && N.eqb (c_err c) 0 && N.eqb (c_rerr c) 0
+         && forallb2 (fun (m : member) (x : nat * bfile) =>
+                        option_eqb Nat.eqb (m_file m) (Some (fst x)) && bfile_eqb (m_blocks m) (snd x))%bool
+                     tsm_members ms
+         && list_eqb (option_eqb Nat.eqb) tomb_members tomb_expected
+         && zzs_eqb (c_readB c) (read_all dst)
+         && match c_seriesB c with Some n => N.eqb n (series_count (files dst)) | None => true end)%bool in
       (* oracle: the export succeeds and, imported, holds exactly the source's readable
          points of [lo,hi] *)
       let ok :=
